@@ -717,7 +717,7 @@ macro_rules! c11_adv_str {
         }
     };
 }
-c11_adv_str!(c11_adv_str_default_2x1, quick, 10, 2, 1, Default);
+c11_adv_str!(c11_adv_str_default_2x1, thorough, 10, 2, 1, Default);
 c11_adv_str!(c11_adv_str_default_2x2, thorough, 10, 2, 2, Default);
 
 // ------------------------------------------------------------------------------------------
